@@ -80,6 +80,10 @@ type c19Cfg struct {
 	PLoaded   int      `json:"permille_wait_at_search_loaded"`
 	PPublish  int      `json:"permille_delay_loader_publish"`
 	PBetween  int      `json:"permille_delay_scan_between"`
+	// SlowLoad: the initial load batch is stalled once for longer than the 5 s progress
+	// interval of loader.load, so that the shards loaded so far are published early
+	// and the rest of the batch later (the partial publish path)
+	SlowLoad bool `json:"stall_initial_load_batch_beyond_5s"`
 }
 
 var c19ClassOrder = []string{"R", "D", "M", "T", "F", "R", "D", "M"}
@@ -105,6 +109,7 @@ func c19MakeCfg(seed uint64, run int, tier string) c19Cfg {
 	c.PLoaded = 5 + r.IntN(40)
 	c.PPublish = r.IntN(300)
 	c.PBetween = r.IntN(500)
+	c.SlowLoad = run%4 == 1
 	if v, err := strconv.Atoi(os.Getenv("C19_SEGS")); err == nil && v > 0 { // development aid
 		c.Segs = v
 	}
@@ -180,6 +185,7 @@ type c19World struct {
 	nSearch, nStream, nList              atomic.Int64
 	nOverlap, nHeldOver, nConsumerOver   atomic.Int64
 	nWaitHit, nWaitMiss, nPointLoaded    atomic.Int64
+	nLoaderKey, nSlowLoads               atomic.Int64
 	nScans, nBytes, nFiles, nRegress     atomic.Int64
 	nAbsentOK, nVersionsWritten, nGC     atomic.Int64
 	nErrLogs, nScanStarts, nKeyChecks    atomic.Int64
@@ -446,6 +452,13 @@ func (w *c19World) point(name string) {
 	case "scan.between":
 		if yes, x := w.coin(w.cfg.PBetween); yes {
 			time.Sleep(time.Duration(x%500) * time.Microsecond)
+		}
+	case "loader.key":
+		// third key of the first batch: two shards are loaded, the rest follows after
+		// the stall (the real clock is the only way to reach this path: time.Since in load)
+		if w.cfg.SlowLoad && w.nLoaderKey.Add(1) == 3 {
+			time.Sleep(5200 * time.Millisecond)
+			w.nSlowLoads.Add(1)
 		}
 	}
 }
@@ -1279,6 +1292,7 @@ func c19Child(rec *kit.Rec) {
 	rec.Count("waits_for_replace_hit", w.nWaitHit.Load())
 	rec.Count("waits_for_replace_expired", w.nWaitMiss.Load())
 	rec.Count("point_search_loaded", w.nPointLoaded.Load())
+	rec.Count("initial_load_batches_stalled_beyond_5s(partial publish)", w.nSlowLoads.Load())
 	rec.Count("mutator_ms_in_directory_operations", w.nsOps.Load()/1e6)
 	rec.Count("mutator_ms_in_per_key_checks", w.nsKeyChecks.Load()/1e6)
 	rec.Count("scans", w.nScans.Load())
@@ -1303,7 +1317,10 @@ func c19Child(rec *kit.Rec) {
 	for k, n := range perKey {
 		rec.Max(fmt.Sprintf("max_versions_observed_in_one_run_key%d", k), int64(n))
 	}
-	w.overlapSeen.Range(func(k, _ any) bool { rec.Seen("overlaps(search kind|loaded set)", fmt.Sprintf("r%d|%s", run, k.(string))); return true })
+	w.overlapSeen.Range(func(k, _ any) bool {
+		rec.Seen("overlaps(search kind|loaded set)", fmt.Sprintf("r%d|%s", run, k.(string)))
+		return true
+	})
 	rec.Seen("modes", cfg.Mode)
 	w.errLogMu.Lock()
 	if len(w.errLogs) > 0 {
